@@ -2,6 +2,7 @@ package mon
 
 import (
 	"fmt"
+	"math"
 	"strings"
 
 	stackage "github.com/JesseCoretta/go-stackage"
@@ -153,11 +154,27 @@ func (m *ListModel) String() string {
 // Kinds of stacks, in a fixed order.
 var Kinds = []string{"AND", "OR", "NOT", "LIST", "BASIC"}
 
-// NewStack creates a stack of the named kind; capacity 0 means "no capacity argument".
+// CapSpell selects how "no capacity" is spelled by NewStack (set per case by the driver hook).
+var CapSpell int
+var capSpellN int
+
+// NewStack creates a stack of the named kind; capacity 0 means "no capacity".
 func NewStack(kind string, capacity int) stackage.Stack {
 	var c []int
 	if capacity != 0 {
 		c = []int{capacity}
+	} else {
+		// "no capacity" has several spellings: no argument at all, or an argument that is not a positive number
+		switch CapSpell {
+		case 2:
+			c = []int{0}
+		case 3:
+			c = []int{-1}
+		case 4:
+			c = []int{-2}
+		case 5:
+			c = []int{[]int{-7, -65536, math.MinInt, math.MinInt + 1}[capSpellN%4]}
+		}
 	}
 	s := NewStackArgs(kind, c...)
 	if AutoMutex {
